@@ -117,7 +117,9 @@ impl ClientAbuse {
     /// an undefined flag bit is set on the abusive frame (RFC 9113 4.1: must be ignored)
     pub fn undefined_flag(&self) -> bool { self.feature.contains("+undefined_flag") }
     pub fn key(&self) -> String {
-        let f = self.feature.split('@').next().unwrap_or("").trim_end_matches("/hi").replace("+undefined_flag", "");
+        let mut f = self.feature.split('@').next().unwrap_or("").trim_end_matches("/hi").replace("+undefined_flag", "");
+        // on the client's first SETTINGS frame the undefined flag bit decides (recorded defect), so it stays in the key
+        if self.phase == Phase::NoSettings && self.undefined_flag() && matches!(self.kind, Kind::Frame { ty: 4, cls: StreamClass::Zero, .. }) { f += "+undefined_flag"; }
         if self.drain { return format!("draining/{}", f.splitn(2, '/').nth(1).unwrap_or("")); }
         match (&self.phase, &self.kind) {
             (Phase::NoPreface, Kind::Frame { .. }) => "no_preface/frame".to_string(),
